@@ -29,6 +29,7 @@ func main() {
 	in := flag.String("in", "", "input file")
 	out := flag.String("out", "", "output file")
 	rel := flag.String("rel", "", "path shown in sites")
+	rangesOnly := flag.Bool("ranges-only", false, "only rewrite range statements over maps (seeded iteration order), no scheduling points")
 	flag.Parse()
 	fset := token.NewFileSet()
 	f, err := parser.ParseFile(fset, *in, nil, parser.ParseComments)
@@ -46,7 +47,11 @@ func main() {
 		}
 	}
 	f.Comments = keep
+	rewriteRanges(rw, f, *in)
 	for _, d := range f.Decls {
+		if *rangesOnly {
+			break
+		}
 		if fd, ok := d.(*ast.FuncDecl); ok && fd.Body != nil {
 			rw.block(fd.Body)
 		}
